@@ -216,7 +216,7 @@ func enumerate(t *rapid.T, base *world.FaultScenario, run func(*rapid.T, *world.
 }
 
 func TestEncryptFaults(t *testing.T) {
-	kit.Check(t, 80, 1600, func(t *rapid.T) {
+	kit.Check(t, 200, 3200, func(t *rapid.T) {
 		sc := world.DrawScenario(t, world.KeyStates)
 		enumerate(t, sc, runEncrypt, kit.Pick(40, -1))
 	})
@@ -224,7 +224,7 @@ func TestEncryptFaults(t *testing.T) {
 
 func TestDecryptFaults(t *testing.T) {
 	states := []string{"warm-held", "warm-fresh", "stale", "expired", "ik-revoked", "sk-revoked", "ext-rotated", "ext-rotated-sk"}
-	kit.Check(t, 50, 800, func(t *rapid.T) {
+	kit.Check(t, 120, 1600, func(t *rapid.T) {
 		sc := world.DrawScenario(t, states)
 		enumerate(t, sc, runDecrypt, kit.Pick(40, -1))
 	})
